@@ -20,6 +20,7 @@ pub struct MapUniverse {
     pub first_start: i32,
     pub keys: u8,
     pub stream: (u32, u32),
+    pub repeat: u32,
 }
 
 impl MapUniverse {
@@ -34,6 +35,7 @@ impl MapUniverse {
             objs: self.alpha.seq(idx, self.n_max),
             stream: self.stream,
             jitter: 0,
+            repeat: self.repeat,
         }
     }
 
@@ -74,6 +76,7 @@ pub struct UniOpts {
     pub keys: u8,
     pub tag: String,
     pub stream: (u32, u32),
+    pub repeat: u32,
 }
 
 impl UniOpts {
@@ -94,6 +97,7 @@ impl UniOpts {
             keys: 4,
             tag: String::new(),
             stream: (0, 0),
+            repeat: 1,
         }
     }
 
@@ -119,6 +123,7 @@ impl UniOpts {
                     first_start: self.first_start,
                     keys: self.keys,
                     stream: self.stream,
+                    repeat: self.repeat,
                 }
             })
             .collect()
